@@ -39,6 +39,23 @@ TOO_NEW = [
 TOO_NEW = [t for t in TOO_NEW if t != ("numpy.random", "default_rng")]
 
 
+def declared_requirements(repo):
+    """top-level names of install_requires in setup.py (fail closed if it cannot be read)"""
+    import re
+    tree = ast.parse(open(os.path.join(repo, "setup.py")).read())
+    for node in ast.walk(tree):
+        if isinstance(node, ast.keyword) and node.arg == "install_requires":
+            vals = ast.literal_eval(node.value)
+            return sorted(re.split(r"[<>=!~ \[;]", v.strip())[0].replace("-", "_").lower() for v in vals)
+    raise ValueError("install_requires not found in setup.py")
+
+
+ARRAY_MAKERS = {"array", "asarray", "asanyarray", "zeros", "ones", "empty", "full", "arange", "linspace",
+                "logspace", "concatenate", "cumsum", "diff", "where", "zeros_like", "ones_like", "full_like",
+                "atleast_1d", "ravel", "sort", "unique", "copy", "broadcast_to", "roll", "interp", "abs", "real",
+                "imag", "sqrt", "exp", "log", "sin", "cos", "cross", "dot", "outer", "stack", "vstack", "hstack"}
+
+
 def is_external(root):
     top = root.split(".")[0]
     return top in THIRD or top in STDLIB or top in OPTIONAL
@@ -129,6 +146,17 @@ class FileRefs(ast.NodeVisitor):
 
     # --- references
     def visit_Attribute(self, node):
+        # `<numpy array constructor>(...).attr`: the attribute must exist on numpy.ndarray
+        if isinstance(node.value, ast.Call):
+            f = node.value.func
+            parts = []
+            m = f
+            while isinstance(m, ast.Attribute):
+                parts.append(m.attr)
+                m = m.value
+            if isinstance(m, ast.Name) and m.id in self.alias and self.alias[m.id] == "numpy" \
+                    and len(parts) == 1 and parts[0] in ARRAY_MAKERS:
+                self.refs.append(("numpy.ndarray", [node.attr], node.lineno, self.guard > 0))
         chain = []
         n = node
         while isinstance(n, ast.Attribute):
@@ -182,6 +210,9 @@ def generate(repo):
     if len(files) < 20:
         raise ValueError("unexpectedly few source files under %s" % pkg)
     refs, imports, env, unresolved_roots = [], [], {}, []
+    declared = declared_requirements(repo)
+    if not set(declared) >= {"numpy", "scipy", "h5py"}:
+        raise ValueError("unexpected install_requires: %s" % declared)
     for path in files:
         rel = os.path.relpath(path, repo)
         tree = ast.parse(open(path).read(), filename=rel)
@@ -190,15 +221,21 @@ def generate(repo):
         for mod, line, g in v.imports:
             top = mod.split(".")[0]
             optional = top in OPTIONAL
-            imports.append((mod, rel, line, g, optional))
+            imports.append((mod, rel, line, g, optional, top in STDLIB or top.lower() in declared))
         for mod, name, line, g in v.from_imports:
-            imports.append((mod, rel, line, g, mod.split(".")[0] in OPTIONAL))
+            top = mod.split(".")[0]
+            imports.append((mod, rel, line, g, top in OPTIONAL, top in STDLIB or top.lower() in declared))
             if is_external(mod) and mod.split(".")[0] not in OPTIONAL:
                 refs.append((mod, name, rel, line, g))
         for root, chain, line, g in v.refs:
             if not is_external(root) or root.split(".")[0] in OPTIONAL:
                 continue
             # walk through sub-modules, the first non-module attribute is the obligation
+            if root == "numpy.ndarray":
+                import numpy
+                refs.append((root, chain[0], rel, line, g))
+                env.setdefault(root, numpy.ndarray)
+                continue
             mobj, mpath, rest = resolve_module(root)
             chain = rest + chain
             if mobj is None:
@@ -222,7 +259,7 @@ def generate(repo):
                 refs.append((curpath, chain[0], rel, line, g))
             env.setdefault(curpath, cur)
     # environment: dir() of every module touched + importable modules
-    for mod, rel, line, g, opt in imports:
+    for mod, rel, line, g, opt, decl in imports:
         if mod.split(".")[0] in OPTIONAL:
             continue
         mobj, mpath, rest = resolve_module(mod)
@@ -240,13 +277,16 @@ def generate(repo):
                "Every reference of pyrex's source into numpy/scipy/h5py/stdlib (C20). -/\n")
     out.append("namespace Gen.Refs\n")
     out.append("structure Ref where\n  module : String\n  attr : String\n  file : String\n  line : Nat\n  guarded : Bool\nderiving Repr\n")
-    out.append("structure Imp where\n  module : String\n  file : String\n  line : Nat\n  guarded : Bool\n  optional : Bool\nderiving Repr\n")
+    out.append("structure Imp where\n  module : String\n  file : String\n  line : Nat\n  guarded : Bool\n  optional : Bool\n  declared : Bool\nderiving Repr\n")
     out.append("def refs : List Ref := [\n" + ",\n".join(
         "  ⟨%s, %s, %s, %d, %s⟩" % (lean_str(m), lean_str(a), lean_str(f), l, "true" if g else "false")
         for m, a, f, l, g in refs) + "]\n")
     out.append("def imports : List Imp := [\n" + ",\n".join(
-        "  ⟨%s, %s, %d, %s, %s⟩" % (lean_str(m), lean_str(f), l, "true" if g else "false", "true" if o else "false")
-        for m, f, l, g, o in imports) + "]\n")
+        "  ⟨%s, %s, %d, %s, %s, %s⟩" % (lean_str(m), lean_str(f), l, "true" if g else "false", "true" if o else "false",
+                                           "true" if d else "false")
+        for m, f, l, g, o, d in imports) + "]\n")
+    out.append("/-- install_requires of setup.py -/\n")
+    out.append("def declaredRequirements : List String := [%s]\n" % ", ".join(lean_str(d) for d in declared))
     out.append("/-- files documented as needing an optional dependency -/\n")
     out.append("def optionalFiles : List String := [%s]\n" % ", ".join(
         lean_str(f) for fs in OPTIONAL.values() for f in fs))
